@@ -10,6 +10,7 @@
 import Gozod.Gen.CoerceDispatch
 import Gozod.Proofs.C17
 
+set_option linter.unusedSimpArgs false
 namespace Gozod.C17D
 open Gozod Gozod.Coerce Gozod.Dispatch
 open Gozod.Gen.CoerceDispatch
@@ -231,5 +232,141 @@ theorem ToBigInt_table (f32 f64 : F → List Nat) (s : Src) (ty : String) (hty :
   | cplx re im mag => simp [goTypes] at hty; rcases hty with h | h <;> subst h <;> simp only [Gen.CoerceDispatch.ToBigInt, Table.run, find] <;> table_simp
   | nilptr => simp [goTypes] at hty
   | other => simp [goTypes] at hty; subst hty; simp only [Gen.CoerceDispatch.ToBigInt, Table.run, find]; table_simp
+
+/-! ## `checkIntegerTypeBounds` and `ToInteger[T]` -/
+
+/-- The bounds clause of a target type, run on the int64 intermediate (a type without a
+    clause — `int64` — is unchecked). -/
+def boundsRun (t : IntTy) (v : Int) : Option (R Int) :=
+  match findBounds (IntTy.goName t) checkIntegerTypeBounds with
+  | some b => b.run v
+  | none => some (.ok v)
+
+/-- **The range constants.** The guards regenerated from `checkIntegerTypeBounds` (with
+    `math.MinInt8` … `^uint(0)` evaluated by go/constant) are the model's `checkBounds`, for every
+    target type and every int64 value. -/
+theorem bounds_table (t : IntTy) (v : Int) (hv : v ≤ 2 ^ 64 - 1) :
+    boundsRun t v = some (checkBounds t v) := by
+  have hv' : ¬ ((18446744073709551615 : Int) < v) := by omega
+  cases t with
+  | i64 => simp [boundsRun, findBounds, IntTy.goName, checkIntegerTypeBounds, Bounds.run, runGuards, Cond.eval, Term.eval, num,
+      F.cmp, holds_compare, Res.eval, checkBounds, IntTy.lo, IntTy.hi, IntTy.signed, IntTy.bits]
+  | i8 =>
+    simp [boundsRun, findBounds, IntTy.goName, checkIntegerTypeBounds, Bounds.run, runGuards, Cond.eval, Term.eval, num,
+      F.cmp, holds_compare, Res.eval, checkBounds, IntTy.lo, IntTy.hi, IntTy.signed, IntTy.bits]
+    by_cases h1 : v < -128 <;> by_cases h2 : (127 : Int) < v <;> simp [h1, h2]
+  | i16 =>
+    simp [boundsRun, findBounds, IntTy.goName, checkIntegerTypeBounds, Bounds.run, runGuards, Cond.eval, Term.eval, num,
+      F.cmp, holds_compare, Res.eval, checkBounds, IntTy.lo, IntTy.hi, IntTy.signed, IntTy.bits]
+    by_cases h1 : v < -32768 <;> by_cases h2 : (32767 : Int) < v <;> simp [h1, h2]
+  | i32 =>
+    simp [boundsRun, findBounds, IntTy.goName, checkIntegerTypeBounds, Bounds.run, runGuards, Cond.eval, Term.eval, num,
+      F.cmp, holds_compare, Res.eval, checkBounds, IntTy.lo, IntTy.hi, IntTy.signed, IntTy.bits]
+    by_cases h1 : v < -2147483648 <;> by_cases h2 : (2147483647 : Int) < v <;> simp [h1, h2]
+  | int =>
+    simp [boundsRun, findBounds, IntTy.goName, checkIntegerTypeBounds, Bounds.run, runGuards, Cond.eval, Term.eval, num,
+      F.cmp, holds_compare, Res.eval, checkBounds, IntTy.lo, IntTy.hi, IntTy.signed, IntTy.bits]
+    by_cases h1 : v < -9223372036854775808 <;> by_cases h2 : (9223372036854775807 : Int) < v <;> simp [h1, h2]
+  | u8 =>
+    simp [boundsRun, findBounds, IntTy.goName, checkIntegerTypeBounds, Bounds.run, runGuards, Cond.eval, Term.eval, num,
+      F.cmp, holds_compare, Res.eval, checkBounds, IntTy.lo, IntTy.hi, IntTy.signed, IntTy.bits]
+    by_cases h1 : v < 0 <;> by_cases h2 : (255 : Int) < v <;> simp [h1, h2]
+  | u16 =>
+    simp [boundsRun, findBounds, IntTy.goName, checkIntegerTypeBounds, Bounds.run, runGuards, Cond.eval, Term.eval, num,
+      F.cmp, holds_compare, Res.eval, checkBounds, IntTy.lo, IntTy.hi, IntTy.signed, IntTy.bits]
+    by_cases h1 : v < 0 <;> by_cases h2 : (65535 : Int) < v <;> simp [h1, h2]
+  | u32 =>
+    simp [boundsRun, findBounds, IntTy.goName, checkIntegerTypeBounds, Bounds.run, runGuards, Cond.eval, Term.eval, num,
+      F.cmp, holds_compare, Res.eval, checkBounds, IntTy.lo, IntTy.hi, IntTy.signed, IntTy.bits]
+    by_cases h1 : v < 0 <;> by_cases h2 : (4294967295 : Int) < v <;> simp [h1, h2]
+  | u64 =>
+    simp [boundsRun, findBounds, IntTy.goName, checkIntegerTypeBounds, Bounds.run, runGuards, Cond.eval, Term.eval, num,
+      F.cmp, holds_compare, Res.eval, checkBounds, IntTy.lo, IntTy.hi, IntTy.signed, IntTy.bits]
+    by_cases h1 : v < 0 <;> simp [h1, hv']
+  | uint =>
+    simp [boundsRun, findBounds, IntTy.goName, checkIntegerTypeBounds, Bounds.run, runGuards, Cond.eval, Term.eval, num,
+      F.cmp, holds_compare, Res.eval, checkBounds, IntTy.lo, IntTy.hi, IntTy.signed, IntTy.bits]
+    by_cases h1 : v < 0 <;> simp [h1, hv']
+
+def boundsNext (t : IntTy) : Val → Option (R Val)
+  | .int n => (boundsRun t n).map (fun r => Val.int <$> r)
+  | _ => none
+
+
+/-- The step after a clause of `ToInteger`: bounds check on success, the error otherwise. -/
+theorem after_bounds (t : IntTy) (r : R Int) (hr : ∀ n, r = .ok n → n ≤ 2 ^ 64 - 1) :
+    (match (Val.int <$> r : R Val) with
+      | .ok v => boundsNext t v
+      | .error e => some (.error e)) = some (Val.int <$> (r >>= checkBounds t)) := by
+  cases r with
+  | error e => rfl
+  | ok n =>
+    simp only [Functor.map, Except.map, boundsNext, bounds_table t n (hr n rfl), Option.map, bind, Except.bind]
+
+theorem ToInteger_table (f32 f64 : F → List Nat) (t : IntTy) (s : Src) (ty : String) (hty : ty ∈ goTypes s)
+    (hn : ∀ n, Coerce.toInt64 s = .ok n → n ≤ 2 ^ 64 - 1) :
+    ToInteger.run (env f32 f64) ty s (boundsNext t) = some (Val.int <$> Coerce.toInteger t s) := by
+  cases s with
+  | int t' v =>
+    rw [C17.toInteger_nonbool t _ (by intro b h; cases h), ← after_bounds t _ hn]
+    cases t' <;> simp [goTypes, IntTy.goName] at hty <;> subst hty <;> simp only [ToInteger, Table.run, find] <;> table_simp <;>
+      split <;> simp
+  | f32 x => rw [C17.toInteger_nonbool t _ (by intro b h; cases h), ← after_bounds t _ hn]; simp [goTypes] at hty; subst hty; simp only [ToInteger, Table.run, find]; table_simp; cases Coerce.floatToInt64 x <;> rfl
+  | f64 x => rw [C17.toInteger_nonbool t _ (by intro b h; cases h), ← after_bounds t _ hn]; simp [goTypes] at hty; subst hty; simp only [ToInteger, Table.run, find]; table_simp; cases Coerce.floatToInt64 x <;> rfl
+  | bool b => simp [goTypes] at hty; subst hty; simp only [ToInteger, Table.run, find]; cases b <;> table_simp <;> rfl
+  | str i => rw [C17.toInteger_nonbool t _ (by intro b h; cases h), ← after_bounds t _ hn]; simp [goTypes] at hty; subst hty; simp only [ToInteger, Table.run, find]; table_simp; cases Coerce.stringToInt64 i <;> rfl
+  | big v => rw [C17.toInteger_nonbool t _ (by intro b h; cases h), ← after_bounds t _ hn]; simp [goTypes] at hty; subst hty; simp only [ToInteger, Table.run, find]; table_simp
+  | cplx re im mag => rw [C17.toInteger_nonbool t _ (by intro b h; cases h), ← after_bounds t _ hn]; simp [goTypes] at hty; rcases hty with h | h <;> subst h <;> simp only [ToInteger, Table.run, find] <;> table_simp
+  | nilptr => simp [goTypes] at hty
+  | other => rw [C17.toInteger_nonbool t _ (by intro b h; cases h), ← after_bounds t _ hn]; simp [goTypes] at hty; subst hty; simp only [ToInteger, Table.run, find]; table_simp
+
+/-! ## `toFloat32` (the float32 path of `ToFloat[T]`) -/
+
+/-- What follows `toFloat32`'s switch: `fval, err := ToFloat64(d)` (through the regenerated
+    `ToFloat64` table), then the regenerated guards over `fval` and the narrowing. -/
+def f32Tail (e : Env) (ty : String) (s : Src) : Option (R Val) :=
+  match Gen.CoerceDispatch.ToFloat64.run e ty s noNext with
+  | some (.ok (.flt f)) => runGuards e (.f64 f) toFloat32_tail.guards toFloat32_tail.res
+  | some (.error err) => some (.error err)
+  | _ => none
+
+theorem f32_tail (f32 f64 : F → List Nat) (f : F) :
+    runGuards (env f32 f64) (.f64 f) toFloat32_tail.guards toFloat32_tail.res =
+      some (Val.flt <$> (if absGtMaxF32 f then (.error .overflow : R F) else .ok (roundF32 f))) := by
+  cases f with
+  | fin a k =>
+    simp [toFloat32_tail, runGuards, Cond.eval, Term.eval, num, fAbs, F.cmp, holds_compare, Res.eval,
+      absGtMaxF32, maxF32, Functor.map, Except.map]
+    split <;> simp
+  | nan => simp [toFloat32_tail, runGuards, Cond.eval, Term.eval, num, fAbs, F.cmp, Rel.holds, Res.eval,
+      absGtMaxF32, roundF32, Functor.map, Except.map]
+  | pinf => simp [toFloat32_tail, runGuards, Cond.eval, Term.eval, num, fAbs, F.cmp, Rel.holds, Res.eval,
+      absGtMaxF32, Functor.map, Except.map]
+  | ninf => simp [toFloat32_tail, runGuards, Cond.eval, Term.eval, num, fAbs, F.cmp, Rel.holds, Res.eval,
+      absGtMaxF32, Functor.map, Except.map]
+
+set_option maxRecDepth 20000 in
+theorem toFloat32_table (f32 f64 : F → List Nat) (s : Src) (ty : String) (hty : ty ∈ goTypes s)
+    (hs : ∀ x, s ≠ .f32 x) :
+    Gen.CoerceDispatch.toFloat32.run (env f32 f64) ty s (fun _ => f32Tail (env f32 f64) ty s) =
+      some (Val.flt <$> Coerce.toFloat32 s) := by
+  have tail : ∀ r : R F, Gen.CoerceDispatch.ToFloat64.run (env f32 f64) ty s noNext = some (Val.flt <$> r) →
+      f32Tail (env f32 f64) ty s = some (Val.flt <$> (r >>= fun f => if absGtMaxF32 f then (.error .overflow : R F) else .ok (roundF32 f))) := by
+    intro r h
+    cases r with
+    | error e => simp [f32Tail, h, Functor.map, Except.map, bind, Except.bind]
+    | ok f => simp only [f32Tail, h, Functor.map, Except.map, f32_tail, bind, Except.bind]
+  have t64 := ToFloat64_table f32 f64 s ty hty
+  cases s with
+  | int t v =>
+    cases t <;> simp [goTypes, IntTy.goName] at hty <;> subst hty <;> simp only [Gen.CoerceDispatch.toFloat32, Table.run, find] <;> table_simp
+  | f32 x => exact absurd rfl (hs x)
+  | f64 x => simp [goTypes] at hty; subst hty; simp only [Gen.CoerceDispatch.toFloat32, Table.run, find]; simp [Branch.run, runGuards, Res.eval, Coerce.toFloat32]; rw [tail _ t64]; generalize Coerce.toFloat64 _ = r; cases r <;> rfl
+  | bool b => simp [goTypes] at hty; subst hty; cases b <;> simp only [Gen.CoerceDispatch.toFloat32, Table.run, find] <;> simp [Branch.run, runGuards, Res.eval] <;> rw [tail _ t64] <;> simp only [Coerce.toFloat32]
+  | str i => simp [goTypes] at hty; subst hty; simp only [Gen.CoerceDispatch.toFloat32, Table.run, find]; table_simp
+  | big v => simp [goTypes] at hty; subst hty; simp only [Gen.CoerceDispatch.toFloat32, Table.run, find]; table_simp
+  | cplx re im mag => simp [goTypes] at hty; rcases hty with h | h <;> subst h <;> simp only [Gen.CoerceDispatch.toFloat32, Table.run, find] <;> simp [Branch.run, runGuards, Res.eval, Coerce.toFloat32] <;> rw [tail _ t64] <;> generalize Coerce.toFloat64 _ = r <;> cases r <;> rfl
+  | nilptr => simp [goTypes] at hty
+  | other => simp [goTypes] at hty; subst hty; simp only [Gen.CoerceDispatch.toFloat32, Table.run, find]; simp [Branch.run, runGuards, Res.eval, Coerce.toFloat32]; rw [tail _ t64]; generalize Coerce.toFloat64 _ = r; cases r <;> rfl
 
 end Gozod.C17D
